@@ -457,6 +457,9 @@ fn random_text(rng: &mut Rng) -> String {
     const SEEDS: &[&str] = &[
         "2015-09-05", "23:56:04", "2015-09-05T23:56:04", "2015-09-05 23:56:04 UTC", "2015-09-05T23:56:04+09:30", "Tue, 1 Jul 2003 10:52:37 +0200", "1996-12-19T16:39:57-08:00", "+262142-12-31T23:59:60.999999999",
         "-262143-01-01", "Sat", "Saturday", "September", "Sep", "+09:30", "-00:00", "12:34:56.123456789", "2015-W36-6", "P1DT2H", "1441497364", "99999999999999999999", "0000-00-00", "9999-99-99T99:99:99Z", "2015-02-29", "24:00:00", "23:59:60",
+        // the alphabetic parts of the readers: zone names, military letters, comments, month and day names, am/pm
+        "Tue, 1 Jul 2003 10:52:37 GMT", "1 Jul 03 10:52 EST", "Fri, 21 Nov 1997 09:55:06 PDT (Pacific (daylight) time)", "21 Nov 97 09:55 z", "Thursday, 9 January 2020 03:04:05 PM UTC", "9 jan 2020 3:04 am",
+        "2015-09-05T23:56:04Z", "2015-09-05t23:56:04z", "20150905T235604", "Sat Sep  5 23:56:04 2015",
     ];
     match rng.below(8) {
         0..=3 => {
@@ -470,9 +473,16 @@ fn random_text(rng: &mut Rng) -> String {
                     0 => {
                         b.remove(p);
                     }
-                    1 => b.insert(p, *rng.pick(&['0', '9', '-', '+', ':', '.', ' ', 'T', 'Z', '\u{2212}', '\u{ff11}', 'é'])),
+                    1 => b.insert(p, *rng.pick(&['0', '9', '-', '+', ':', '.', ' ', 'T', 'Z', '\u{2212}', '\u{ff11}', 'é', 'ß', 'Ω', '日', '\u{130}', '\u{1F600}', '\u{3000}', 'a', '(', ')', '\\'])),
                     2 => b[p] = *rng.pick(&['0', '1', '9', '-', '+', ':', ' ', 'x', '\u{0661}', '\0']),
-                    3 => b.truncate(p),
+                    3 => {
+                        if rng.chance(1, 2) {
+                            b.truncate(p)
+                        } else {
+                            // append: a letter (ASCII or not) right after the last field
+                            b.push(*rng.pick(&['é', 'ß', '東', 'x', 'Z', '\u{130}', '\u{2212}', '9']));
+                        }
+                    }
                     4 => {
                         let c = b[p];
                         b.insert(p, c);
